@@ -176,3 +176,40 @@ Definition spec_eb_option_bits : list (string * Z) :=
   [("no_data", 1); ("min", 2); ("max", 4); ("scale", 8); ("offset", 16)].
 (* the descriptors live in the VLR  User ID "LASF_Spec", Record ID 4 *)
 Definition spec_eb_vlr : string * Z := ("LASF_Spec", 4).
+
+(* ---- the record length of the header delimits the records ("Point Data Record Length"): bytes of a record beyond the
+   format's items and the items the Extra Bytes VLR describes are undocumented bytes — still part of every record ---- *)
+Definition undoc_items (n : Z) : list item := repeat ("ExtraBytes", uchar) (Z.to_nat n).
+
+Definition spec_point_layout_rl (f : Z) (ebs : list eb_desc) (trailing : Z) : option (list placed) :=
+  match spec_items f, eb_items_of spec_eb_types ebs with
+  | Some a, Some b => if 0 <=? trailing then Some (with_offsets 0 (a ++ b ++ undoc_items trailing)) else None
+  | _, _ => None
+  end.
+
+(* which layout a file's records have, from what its header and VLRs say: [ps] = Point Data Record Length, [std] = the
+   format's record length, [d] = the bytes the Extra Bytes VLR describes, [hv] = the file has an Extra Bytes VLR.
+   -> (the descriptors apply, number of undocumented trailing bytes); a record shorter than what must be in it is an error.
+   A VLR in a file whose records have no extra bytes at all is ignored (laspy's documented leniency: it warns). *)
+Definition spec_resolve_record (ps std d : Z) (hv : bool) : result (bool * Z) :=
+  if hv && negb (ps =? std) then
+    (if std + d <=? ps then Ok (true, ps - (std + d)) else Err ELaspy)
+  else
+    (if std <=? ps then Ok (false, ps - std) else Err ELaspy).
+
+Definition spec_record_layout (f : Z) (ebs : list eb_desc) (hv : bool) (ps : Z) : result (list placed) :=
+  match eb_items_of spec_eb_types ebs with
+  | Some b =>
+      match spec_resolve_record ps (spec_record_length f) (total_width b) hv with
+      | Ok (used, t) =>
+          match spec_point_layout_rl f (if used then ebs else []) t with Some L => Ok L | None => Err EValue end
+      | Err e => Err e
+      end
+  | None => Err EValue
+  end.
+
+(* ---- LAS 1.4 public header: "Legacy Number of Point Records" / "Legacy Number of Points by Return":
+   the count if the file maintains legacy compatibility, the count fits 32 bits and the point format is below 6;
+   "otherwise, it must be set to zero" ---- *)
+Definition spec_legacy_ok (fmt count legacy : Z) : bool :=
+  (legacy =? 0) || ((fmt <? 6) && (legacy =? count) && (count <? 2 ^ 32)).
